@@ -5,10 +5,10 @@ On every run the source of the function is obtained from the tree under test
 
     while C:            __vc.entry(k, locals())            # prove Inv on entry
         B        ==>    (v1,..,vn) = __vc.havoc(k, locals())   # names stored in B; assume Inv
-                        if C:
+                        while True:
+                            if not C: break                # fall through with Inv /\\ ~C
                             B
                             __vc.back(k, locals())         # prove Inv; end of path
-                        # else: fall through with Inv /\\ ~C
 
     for x in XS:        __it = __vc.for_entry(k, locals())     # (XS evaluated once)
         B        ==>    (v1,..,vn) = __vc.havoc(k, locals())
@@ -18,8 +18,10 @@ On every run the source of the function is obtained from the tree under test
                             __vc.back(k, locals())
 
 Nothing else is changed.  What the extraction drops: the back edge only.
-It refuses (`Unsupported`) `break`/`continue`/`return`/`yield` inside a cut
-loop, `else` clauses of cut loops, and loop ordinals that do not exist.
+The single unrolled iteration sits inside `while True:` so that a `break` (or
+`return`) of the original loop is an ordinary exit; a `continue` of the cut
+loop is a back edge.  It refuses (`Unsupported`) `yield` inside a cut loop,
+`else` clauses of cut loops, and loop ordinals that do not exist.
 
 The rewritten function is compiled in a *copy* of the defining module's
 namespace, in which callees under contract are replaced by their stubs
@@ -71,25 +73,9 @@ def _stored_names(stmts):
 
 
 def _check_body(stmts, fname, k):
+    """Refuse `yield` in a cut loop.  `break` and `return` are ordinary exits of
+    the single unrolled iteration; a top-level `continue` is a back edge."""
     class V(ast.NodeVisitor):
-        depth = 0
-
-        def visit_While(self, node):
-            self.depth += 1
-            self.generic_visit(node)
-            self.depth -= 1
-
-        visit_For = visit_While
-
-        def visit_Break(self, node):
-            if self.depth == 0:
-                raise Unsupported(f'{fname}: break in cut loop {k}')
-
-        visit_Continue = visit_Break
-
-        def visit_Return(self, node):
-            raise Unsupported(f'{fname}: return in cut loop {k}')
-
         def visit_Yield(self, node):
             raise Unsupported(f'{fname}: yield in cut loop {k}')
 
@@ -104,6 +90,28 @@ def _check_body(stmts, fname, k):
     v = V()
     for s in stmts:
         v.visit(s)
+
+
+class _ContinueToBack(ast.NodeTransformer):
+    """Replace `continue` statements that belong to the cut loop itself by the
+    back-edge call (which ends the path)."""
+
+    def __init__(self, k):
+        self.k = k
+
+    def visit_While(self, node):
+        return node         # inner loops keep their own continue / break
+
+    visit_For = visit_While
+
+    def visit_FunctionDef(self, node):
+        return node
+
+    def visit_Lambda(self, node):
+        return node
+
+    def visit_Continue(self, node):
+        return ast.Expr(_call('back', self.k))
 
 
 def _call(method, k):
@@ -143,12 +151,16 @@ class _Cutter(ast.NodeTransformer):
         _check_body(node.body, self.fname, k)
         names = sorted(_stored_names(node.body))
         self.cut[k] = names
+        body = [_ContinueToBack(k).visit(b) for b in node.body]
+        # one unrolled iteration inside `while True` so that a `break` of the
+        # original loop leaves it; every other path ends in back() (EndOfPath)
         new = [
             ast.Expr(_call('entry', k)),
             self._havoc_assign(k, names),
-            ast.If(test=node.test,
-                   body=list(node.body) + [ast.Expr(_call('back', k))],
-                   orelse=[])]
+            ast.While(test=ast.Constant(True), body=[
+                ast.If(test=ast.UnaryOp(op=ast.Not(), operand=node.test),
+                       body=[ast.Break()], orelse=[])]
+                + body + [ast.Expr(_call('back', k))], orelse=[])]
         return new
 
     def visit_For(self, node):
@@ -164,15 +176,117 @@ class _Cutter(ast.NodeTransformer):
         self.cut[k] = names
         it_call = _call('for_entry', k)
         it_call.args.append(node.iter)
+        body = [_ContinueToBack(k).visit(b) for b in node.body]
         new = [
             ast.Expr(it_call),
             self._havoc_assign(k, names),
-            ast.If(test=_call('for_more', k),
-                   body=[ast.Assign(targets=[node.target],
-                                    value=_call('for_item', k))]
-                   + list(node.body) + [ast.Expr(_call('back', k))],
-                   orelse=[])]
+            ast.While(test=ast.Constant(True), body=[
+                ast.If(test=ast.UnaryOp(op=ast.Not(), operand=_call('for_more', k)),
+                       body=[ast.Break()], orelse=[]),
+                ast.Assign(targets=[node.target], value=_call('for_item', k))]
+                + body + [ast.Expr(_call('back', k))], orelse=[])]
         return new
+
+
+def _locals_in_order(fdef):
+    """Parameters, then every other stored name, in order of first binding."""
+    order = [a.arg for a in (fdef.args.posonlyargs + fdef.args.args)]
+    if fdef.args.vararg:
+        order.append(fdef.args.vararg.arg)
+    order += [a.arg for a in fdef.args.kwonlyargs]
+    if fdef.args.kwarg:
+        order.append(fdef.args.kwarg.arg)
+    seen = set(order)
+
+    class V(ast.NodeVisitor):
+        def visit_Name(self, node):
+            if isinstance(node.ctx, (ast.Store, ast.Del)) and node.id not in seen:
+                seen.add(node.id)
+                order.append(node.id)
+
+        def visit_Assign(self, node):
+            # evaluation order: value first, but binding order is what counts
+            for t in node.targets:
+                self.visit(t)
+            self.visit(node.value)
+
+        def visit_ListComp(self, node):
+            pass
+
+        visit_SetComp = visit_DictComp = visit_GeneratorExp = visit_ListComp
+
+        def visit_FunctionDef(self, node):
+            if node is not fdef:
+                if node.name not in seen:
+                    seen.add(node.name)
+                    order.append(node.name)
+                return
+            for b in node.body:
+                self.visit(b)
+
+        def visit_Lambda(self, node):
+            pass
+
+    V().visit(fdef)
+    return order
+
+
+_LOCALS_ORDER = None
+
+
+def _expected_locals(qualname):
+    """Names of the locals of `qualname` as the sidecars know them (committed
+    file contracts/locals_order.json, written by selftest/record_locals.sh on
+    the unchanged tree; never written during a check)."""
+    global _LOCALS_ORDER
+    import json
+    import os
+    if _LOCALS_ORDER is None:
+        path = os.path.join(os.path.dirname(os.path.dirname(os.path.abspath(__file__))),
+                            'contracts', 'locals_order.json')
+        try:
+            _LOCALS_ORDER = json.load(open(path))
+        except (OSError, ValueError):
+            _LOCALS_ORDER = dict()
+    return _LOCALS_ORDER.get(qualname)
+
+
+def _record_locals(qualname, order):
+    import json
+    import os
+    path = os.environ['OVC_RECORD_LOCALS']
+    os.makedirs(path, exist_ok=True)
+    with open(os.path.join(path, qualname.replace('/', '_') + '.json'), 'w') as f:
+        json.dump({qualname: order}, f)
+
+
+def _alpha_rename(fdef, qualname):
+    """A pure renaming of locals / parameters must not matter: if the current
+    source binds the same NUMBER of names in the same order as the source the
+    sidecar was written for, rename them positionally to the sidecar's names
+    (alpha conversion; refused if a new name is used free in the function)."""
+    import os
+    order = _locals_in_order(fdef)
+    if os.environ.get('OVC_RECORD_LOCALS'):
+        _record_locals(qualname, order)
+        return None
+    want = _expected_locals(qualname)
+    if want is None or want == order or len(want) != len(order):
+        return None
+    if set(want) == set(order):
+        return None          # same names, other order: nothing to rename
+    ren = {a: b for a, b in zip(order, want) if a != b}
+    if len(set(ren.values())) != len(ren) or set(ren.values()) & (set(order) - set(ren)):
+        return None
+    free = {n.id for n in ast.walk(fdef) if isinstance(n, ast.Name)} - set(order)
+    if free & set(ren.values()):
+        return None
+    for node in ast.walk(fdef):
+        if isinstance(node, ast.Name) and node.id in ren:
+            node.id = ren[node.id]
+        elif isinstance(node, ast.arg) and node.arg in ren:
+            node.arg = ren[node.arg]
+    return ren
 
 
 def extract(func, loops=None, overrides=None, vc=None, module_overrides=None):
@@ -194,6 +308,7 @@ def extract(func, loops=None, overrides=None, vc=None, module_overrides=None):
     if not isinstance(fdef, (ast.FunctionDef,)):
         raise Unsupported(f'{func.__qualname__}: not a plain function')
     fdef.decorator_list = []
+    renamed = _alpha_rename(fdef, f'{func.__module__}.{func.__qualname__}') if loops else None
     cutter = _Cutter(func.__qualname__, loops)
     fdef.body = [cutter.visit(s) for s in fdef.body]
     # flatten lists produced by the transformer at top level
@@ -256,7 +371,8 @@ def extract(func, loops=None, overrides=None, vc=None, module_overrides=None):
         n_loops=cutter.ordinal + 1,
         dropped=('back edges of loops ' + str(sorted(cutter.cut)) if cutter.cut
                  else 'nothing') + ('; zero-argument super() rewritten to '
-                                    'super(<owning class>, self)' if rewrote_super else ''))
+                                    'super(<owning class>, self)' if rewrote_super else '')
+        + (f'; locals renamed positionally to the names the sidecar uses: {renamed}' if renamed else ''))
     return new, info
 
 
@@ -275,6 +391,17 @@ class Poison:
     __rand__ = __ror__ = __xor__ = __rxor__ = __str__ = __repr__ = _no
 
 
+class _Locals(dict):
+    def __init__(self, d, declared):
+        super().__init__(d)
+        self._declared = declared
+
+    def __missing__(self, key):
+        if key in self._declared:
+            return None
+        raise KeyError(key)
+
+
 class LoopVC:
     """Run-time side of the cut: proves / assumes invariants.
 
@@ -291,15 +418,23 @@ class LoopVC:
         self.specs = specs
         self.reached = set()
 
-    def _inv(self, k, L):
-        r = self.specs[k]['inv'](L)
+    def _inv(self, k, L, unbound_is_none=False):
+        # on ENTRY a declared loop-carried local that is not bound yet reads as
+        # None (e.g. `qold` before a `while True:` loop that assigns it first)
+        L = _Locals(L, self.specs[k]['vars'] if unbound_is_none else ())
+        try:
+            r = self.specs[k]['inv'](L)
+        except KeyError as e:
+            raise Unsupported(
+                f'{self.fname}: the sidecar invariant of loop {k} refers to the '
+                f'local {e} which the current source does not have')
         if isinstance(r, list):
             return r
         return [('inv', r)]
 
     def entry(self, k, L):
         self.reached.add(k)
-        for label, f in self._inv(k, dict(L)):
+        for label, f in self._inv(k, dict(L), unbound_is_none=True):
             self.world.oblige(
                 f'{self.fname}.loop{k}.{label}.establish', f, kind='loop')
 
@@ -309,8 +444,13 @@ class LoopVC:
 
     def havoc(self, k, L):
         spec = self.specs[k]
-        L = dict(L)
         names = spec['names']
+        for n in spec['vars']:
+            if n not in names and n not in L:
+                raise Unsupported(
+                    f'{self.fname}: the sidecar declares the loop-carried local `{n}` '
+                    f'of loop {k}, which the current source does not have')
+        L = dict(L)
         new = dict()
         for n in names:
             if n in spec['vars']:
